@@ -37,10 +37,10 @@ func (m *Machine) toBig(t *smt.Term, nt numT) *smt.Term {
 	if m.IntMode() {
 		return t
 	}
-	if nt.signed {
+	if nt.signed && bvUpperBits(t) >= t.Sort.W {
 		return smt.Sext(t, m.bigW()-nt.w)
 	}
-	return smt.Zext(t, m.bigW()-nt.w)
+	return smt.Zext(t, m.bigW()-nt.w) // unsigned, or signed with a sign bit that is structurally zero
 }
 
 func (m *Machine) bigConst(v *big.Int) *smt.Term {
@@ -82,14 +82,46 @@ func (m *Machine) bigBin(op string, a, b *smt.Term) *smt.Term {
 			return smt.IMul(a, b)
 		}
 	} else {
+		w := m.bigW()
+		ua, ub := bvUpperBits(a), bvUpperBits(b)
 		switch op {
 		case "add":
+			if maxInt(ua, ub)+1 >= w {
+				m.unsupported("big.Int addition may exceed the %d-bit model width (operand bounds %d and %d bits)", w, ua, ub)
+			}
 			return smt.BvAdd(a, b)
 		case "sub":
 			return smt.BvSub(a, b)
 		case "mul":
+			// multiplication by a power of two is a shift: keeps the bit structure visible to the folder
+			for _, pr := range [][2]*smt.Term{{a, b}, {b, a}} {
+				x, c := pr[0], pr[1]
+				if c.IsConst() && c.BigVal().Sign() > 0 && c.BigVal().BitLen() == int(c.BigVal().TrailingZeroBits())+1 {
+					k := int(c.BigVal().TrailingZeroBits())
+					ux := bvUpperBits(x)
+					if ux+k < w {
+						if k == 0 {
+							return x
+						}
+						return smt.Concat(smt.Extract(x, w-1-k, 0), smt.BVConst(k, 0))
+					}
+				}
+			}
+			if ua+ub >= w {
+				m.unsupported("big.Int multiplication may exceed the %d-bit model width (operand bounds %d and %d bits)", w, ua, ub)
+			}
 			return smt.BvMul(a, b)
 		case "and":
+			// mask 2^k-1: the low k bits
+			for _, pr := range [][2]*smt.Term{{a, b}, {b, a}} {
+				x, c := pr[0], pr[1]
+				if c.IsConst() && c.BigVal().Sign() > 0 {
+					k := c.BigVal().BitLen()
+					if new(big.Int).Add(c.BigVal(), big.NewInt(1)).BitLen() == k+1 && new(big.Int).Add(c.BigVal(), big.NewInt(1)).TrailingZeroBits() == uint(k) && k < w {
+						return smt.Zext(smt.Extract(x, k-1, 0), w-k)
+					}
+				}
+			}
 			return smt.BvAnd(a, b)
 		case "or":
 			return smt.BvOr(a, b)
@@ -112,8 +144,18 @@ func (m *Machine) bigNonNegKnown(a *smt.Term) bool {
 	if m.IntMode() {
 		return a.Lo != nil && a.Lo.Sign() >= 0
 	}
-	// zero-extended
-	return a.Op == smt.OConcat && a.Args[0].IsConst() && a.Args[0].BigVal().Sign() == 0
+	// zero-extended, or bounded below the sign bit by structure
+	if a.Op == smt.OConcat && a.Args[0].IsConst() && a.Args[0].BigVal().Sign() == 0 {
+		return true
+	}
+	return bvUpperBits(a) < a.Sort.W
+}
+
+func maxInt(a, b int) int {
+	if a > b {
+		return a
+	}
+	return b
 }
 
 // euclidean / truncated division helpers; y must be nonzero (checked by caller)
@@ -134,6 +176,17 @@ func (m *Machine) bigDivMod(x, y *smt.Term, trunc bool) (*smt.Term, *smt.Term) {
 			q = smt.Ite(smt.ILt(y, smt.IntConstI(0)), smt.INeg(q), q)
 		}
 		return q, smt.ISub(x, smt.IMul(q, y))
+	}
+	// bv mode, non-negative dividend and a power-of-two divisor: shift and mask
+	if y.IsConst() && y.BigVal().Sign() > 0 && y.BigVal().BitLen() == int(y.BigVal().TrailingZeroBits())+1 && m.bigNonNegKnown(x) {
+		k := int(y.BigVal().TrailingZeroBits())
+		w := m.bigW()
+		if k == 0 {
+			return x, m.bigConst(big.NewInt(0))
+		}
+		if k < w {
+			return smt.Zext(smt.Extract(x, w-1, k), k), smt.Zext(smt.Extract(x, k-1, 0), w-k)
+		}
 	}
 	// bv mode, constant divisor and a dividend only a few bits longer: x = q*y + r with Skolem q (few bits), r < y
 	if y.IsConst() && !x.IsConst() && y.BigVal().Sign() > 0 {
@@ -318,7 +371,12 @@ func init() {
 	reg("(*math/big.Int).SetUint64", set(func(m *Machine, z *BigInt, a []Value) { m.setBig(z, m.toBig(a[1].(*smt.Term), u64)) }))
 	reg("(*math/big.Int).Set", set(func(m *Machine, z *BigInt, a []Value) { m.setBig(z, m.bigOf(a[1]).T) }))
 	reg("(*math/big.Int).SetBytes", set(func(m *Machine, z *BigInt, a []Value) {
-		m.setBig(z, m.bigFromBytes(m.sliceBytes(a[1].(SliceVal)))) }))
+		if l, ok := a[1].(LazyBytes); ok {
+			m.setBig(z, l.T) // the value whose bytes these are
+			return
+		}
+		m.setBig(z, m.bigFromBytes(m.sliceBytes(a[1].(SliceVal))))
+	}))
 	bin := func(op string) intrinsic {
 		return set(func(m *Machine, z *BigInt, a []Value) { m.setBig(z, m.bigBin(op, m.bigOf(a[1]).T, m.bigOf(a[2]).T)) })
 	}
@@ -448,21 +506,10 @@ func init() {
 	})
 	reg("(*math/big.Int).Bytes", func(m *Machine, a []Value) Value {
 		x := m.bigOf(a[0]).T
-		n := m.bigBytesLen(x)
-		ax := m.bigAbs(x)
-		bs := make([]*smt.Term, n)
-		for i := 0; i < n; i++ {
-			bs[i] = m.bigByteAt(ax, n-1-i)
+		if m.Cfg.LazyBigBytes && !x.IsConst() {
+			return LazyBytes{T: m.bigAbs(x)}
 		}
-		if m.IntMode() && !ax.IsConst() && n > 0 {
-			// give the solver the decomposition explicitly
-			sum := smt.IntConstI(0)
-			for i := 0; i < n; i++ {
-				sum = smt.IAdd(smt.IMul(sum, smt.IntConstI(256)), bs[i])
-			}
-			m.assumeRaw(smt.Eq(sum, ax))
-		}
-		return m.bytesSlice(bs)
+		return m.forceLazy(LazyBytes{T: m.bigAbs(x)})
 	})
 	reg("(*math/big.Int).FillBytes", func(m *Machine, a []Value) Value {
 		x := m.bigAbs(m.bigOf(a[0]).T)
@@ -542,6 +589,51 @@ func bvUpperBits(t *smt.Term) int {
 			a = b
 		}
 		return a
+	case smt.OBvOr, smt.OBvXor:
+		a := 0
+		for _, x := range t.Args {
+			if b := bvUpperBits(x); b > a {
+				a = b
+			}
+		}
+		return a
+	case smt.OBvAnd:
+		a := w
+		for _, x := range t.Args {
+			if b := bvUpperBits(x); b < a {
+				a = b
+			}
+		}
+		return a
+	}
+	if t.Op == smt.OConcat {
+		// leading zero constant followed by anything (handled above when Args[0] is the zero constant); a concat whose
+		// first argument has itself a bound
+		rest := 0
+		for _, a := range t.Args[1:] {
+			rest += a.Sort.W
+		}
+		if b := bvUpperBits(t.Args[0]); b < t.Args[0].Sort.W {
+			return rest + b
+		}
 	}
 	return w
+}
+
+// forceLazy materialises the bytes of a big value: forks on the byte length.
+func (m *Machine) forceLazy(l LazyBytes) SliceVal {
+	ax := l.T
+	n := m.bigBytesLen(ax)
+	bs := make([]*smt.Term, n)
+	for i := 0; i < n; i++ {
+		bs[i] = m.bigByteAt(ax, n-1-i)
+	}
+	if m.IntMode() && !ax.IsConst() && n > 0 {
+		sum := smt.IntConstI(0)
+		for i := 0; i < n; i++ {
+			sum = smt.IAdd(smt.IMul(sum, smt.IntConstI(256)), bs[i])
+		}
+		m.assumeRaw(smt.Eq(sum, ax))
+	}
+	return m.bytesSlice(bs)
 }
